@@ -89,7 +89,7 @@ theorem vote_wellformed (k : Keys) (c : RCfg) (es : List Ev) (b : Block) (id : N
 theorem vote_qc_quorum (k : Keys) (c : RCfg) (es : List Ev) (b : Block) (id : Nat)
     (h : GRec.vote b id ∈ (runEvents k c (start k c {}).1 es).ghost)
     (hs : ∀ s0, C02.StoreOK (env k c s0)) (hw : C02.QC.WF b.qc) :
-    b.qc.hash = genesisHash ∨ ∃ s0 blk sg, (env k c s0).get b.qc.hash = some blk ∧ blk.view = b.qc.view ∧
+    (b.qc.hash = genesisHash ∧ b.qc.view = 0) ∨ ∃ s0 blk sg, (env k c s0).get b.qc.hash = some blk ∧ blk.view = b.qc.view ∧
       b.qc.sig = some sg ∧ C02.QuorumSigned (env k c s0) sg (blkMsg b.qc.hash) := by
   obtain ⟨_, _, _, s0, hv⟩ := vote_wellformed k c es b id h
   rcases C02.verifyQC_sound (env k c s0) b.qc (hs s0) hw hv with h | ⟨blk, sg, h1, _, h3, h4, h5⟩
